@@ -28,10 +28,10 @@ ASSUMES = [
 CWD = "/tmp/probe"
 SQLITE_WRITE = ["PRAGMA", "ATTACH", "DETACH", "VACUUM", "REINDEX", "ANALYZE"]
 
-READS = ["SELECT 1", "select * from t", "SELECT a, b FROM t WHERE a > 1", "SELECT count(*) FROM t2", "EXPLAIN SELECT 1", "explain query plan select * from t", "SELECT * FROM v", "SELECT 'x' AS y", "SELECT \"a\" FROM t",
+READS = ["PRAGMA table_info(t)", "PRAGMA user_version", "pragma index_list(t)", "PRAGMA main.table_info(t)", "SELECT 1", "select * from t", "SELECT a, b FROM t WHERE a > 1", "SELECT count(*) FROM t2", "EXPLAIN SELECT 1", "explain query plan select * from t", "SELECT * FROM v", "SELECT 'x' AS y", "SELECT \"a\" FROM t",
          "SELECT [a] FROM t", "SELECT `a` FROM t", "SELECT a FROM t ORDER BY 1 LIMIT 1", "VALUES (1)", "SELECT sqlite_version()", "SELECT 1 UNION SELECT 2", "SELECT (SELECT max(a) FROM t)"]
 WRITES = ["INSERT INTO t VALUES (9, 'w')", "DELETE FROM t", "UPDATE t SET b = 'z'", "DROP TABLE t2", "CREATE TABLE n (x)", "REPLACE INTO t VALUES (1, 'r')", "ALTER TABLE t ADD COLUMN c", "CREATE INDEX i2 ON t(b)",
-          "PRAGMA user_version = 7", "ATTACH 'other.db' AS o", "VACUUM", "DROP VIEW v", "CREATE TABLE n2 AS SELECT 1", "INSERT INTO t2 SELECT a FROM t", "DELETE FROM t WHERE a = 1", "ANALYZE", "REINDEX"]
+          "PRAGMA user_version = 7", "PRAGMA user_version(7)", "PRAGMA application_id(1234)", "pragma main.user_version(9)", "PRAGMA journal_mode(wal)", "PRAGMA main.application_id = 5", "ATTACH 'other.db' AS o", "VACUUM", "DROP VIEW v", "CREATE TABLE n2 AS SELECT 1", "INSERT INTO t2 SELECT a FROM t", "DELETE FROM t WHERE a = 1", "ANALYZE", "REINDEX"]
 CTES = ["WITH show AS (SELECT 1 AS x) ", "WITH describe(x) AS (SELECT 1) ", "WITH explain AS MATERIALIZED (SELECT 1) ", "with Show as (select 1), b as (select 2) ", "WITH a AS (SELECT 1), desc AS (SELECT 2) ",
         "WITH RECURSIVE show(n) AS (SELECT 1 UNION ALL SELECT n+1 FROM show WHERE n < 3) ", "WITH replace AS (SELECT 1) ", "WITH pragma AS (SELECT 1) ", "WITH \"select\" AS (SELECT 1) ", "WITH [show] AS (SELECT 1) ", "WITH values_ AS (SELECT 1) ",
         "WITH x AS (SELECT 1) ", "WITH RECURSIVE c(n) AS (SELECT 1 UNION ALL SELECT n+1 FROM c WHERE n < 3) ", "with a as (select 1), b as (select 2) ", "WITH x(y) AS (VALUES (1)) ", "WITH x AS (SELECT ')' ) ", "WITH x AS MATERIALIZED (SELECT 1) "]
